@@ -608,8 +608,11 @@ func report(o *checkOpts, spec *PropSpec, ld *Loaded, results []*ObResult, engin
 		}
 		// not discharged: known finding?
 		if kf := known.match(spec.ID, r.Name); kf != nil {
-			fmt.Printf("KNOWN-FINDING: property=%s %s\n", spec.ID, kf.Text)
-			knownHits = append(knownHits, r.Name) // accounted for in known_findings.txt, not discharged and not a new violation
+			fmt.Printf("KNOWN-FINDING: %s\n", kf.Text)
+			// listed in known_findings.txt: neither discharged nor a new violation; it is not part of the proof claim
+			// (coverage.obligations counts the obligations expected to be discharged) and is reported separately
+			knownHits = append(knownHits, r.Name)
+			claimed--
 			continue
 		}
 		violations++
